@@ -148,6 +148,13 @@ Theorem c13_text_json_same_members : forall c m,
 Proof. exact formats_same_members. Qed.
 Print Assumptions c13_text_json_same_members.
 
+(* with no mapping file the general formatter IS the default formatter of Model/Render.v (the one the theorems
+   c13_json_default_valid, c13_address_text_exact ... speak about), for every message, byte for byte *)
+Theorem c13_default_is_general : forall m,
+  compile_fmt empty_afmt [] = Some c0 /\ format_json c0 m = Some (json_default m) /\ format_text c0 m = Some (text_default m).
+Proof. intros m. split; [exact compile_default|]. split; [apply format_default_json|apply format_default_text]. Qed.
+Print Assumptions c13_default_is_general.
+
 (* non-vacuity: a mapping file with a field list, a rename, renderers, a virtual field and two custom fields
    compiles; a message carrying one of the custom fields (twice: it is an array) is written as expected *)
 Local Open Scope string_scope.
